@@ -199,6 +199,48 @@ class Oracle:
         run, act, cons, _ = self.hyp(need, others)
         return self._sat(*cons, self.double_activation(act, cons))
 
+    def direct_method_conflict(self, t1, t2):
+        """SpecConf attributed to the two transactions themselves: with t1, t2 and their enclosing transactions
+        running (nobody else), some exclusive method has two distinct active call sites, one reached through the
+        calls of t1 and the other through the calls of t2.  `method_conflict` also accepts a double activation
+        that is caused by an enclosing transaction alone (enough for "never run together", since a nested
+        transaction only runs with its parent, but not a reason for an edge of the conflict graph)."""
+        hw = self.hw
+        need = self.parents_closure([t1, t2]) & set(self.transactions)
+        others = [t for t in self.transactions if t not in need]
+        run, act, cons, brun = self.hyp(need, others)
+
+        def reach_from(root):
+            memo = {}
+
+            def r(name, stack=()):
+                if name == root:
+                    return z3.BoolVal(True)
+                bi = self.bodies[name]
+                if bi.kind == "T":
+                    return z3.BoolVal(False)
+                if name in memo:
+                    return memo[name]
+                if name in stack:
+                    return z3.BoolVal(False)
+                terms = [z3.And(r(s.caller.name, stack + (name,)), ev(s.cond, hw)) for s in self.sites_by_target.get(name, [])]
+                f = z3.Or(*terms) if terms else z3.BoolVal(False)
+                if bi.parent is not None:
+                    f = z3.And(f, brun(bi.parent.name), ev(bi.outer_cond, hw))
+                memo[name] = f
+                return f
+
+            return {s.sid: z3.And(r(s.caller.name), ev(s.cond, hw)) for s in self.d.sites}
+
+        a1, a2 = reach_from(t1), reach_from(t2)
+        alts = []
+        for mname, sites in self.sites_by_target.items():
+            if not self.exclusive(mname):
+                continue
+            for s1, s2 in itertools.permutations(sites, 2):
+                alts.append(z3.And(a1[s1.sid], a2[s2.sid]))
+        return self._sat(*cons, z3.Or(*alts)) if alts else False
+
     def explicit_conflicts(self):
         """lifted add_conflict relations: set of frozenset({t1, t2}) plus the priority-directed pairs (hi, lo)"""
         pairs = set()
